@@ -14,6 +14,19 @@ the estimate of A / B / A.B" and "evaluate the estimate of A / B / A.B" on ONE
 library object (90 interleavings; an estimate is always made right after its
 own decomposition), for all unordered pairs (self-pairs included) over 3
 molecules per library.
+
+Wave 5 adds (c) RINGS: 18 monocyclic components (3-, 5- and 6-rings, carbo-
+and heterocycles, Kekule and aromatic spellings, pyridine as the
+undecomposable one) written from every ring atom in both directions (79
+distinct writings); every writing of every ring X with the first writing of
+each of 10 partner rings Y, in both component orders (1480 pairs per distinct
+scheme; thorough: 29 rings, every writing with every writing); and (d)
+SPLIT: the events "decompose A / B / A.B" and "estimate A / B / A.B from its
+decomposition and evaluate it" as SEPARATE events on one library object (90
+interleavings; an estimate may now be made after other molecules were
+decomposed, as a program that decomposes a batch first and estimates
+afterwards does), for all unordered pairs (self-pairs included) over the
+homologues CC, CCC, CCCC (same kinds of groups, different counts).
 """
 import itertools
 
@@ -21,6 +34,7 @@ from ..runner import Result
 from ..domains import schemes as SD
 from ..domains import molecules as MD
 from ..domains import libs
+from ..domains import w5_c04 as W5
 
 LEVEL = 'exploration'
 BOUND = {'quick': 'per distinct scheme file: all ordered pairs over M(2) C/O with '
@@ -32,17 +46,37 @@ BOUND = {'quick': 'per distinct scheme file: all ordered pairs over M(2) C/O wit
                   'temperatures; all 90 interleavings of make / evaluate events '
                   'for A, B, A.B on one library object x all unordered pairs '
                   '(self-pairs included) over 3 molecules x 9 libraries; all '
-                  'ordered pairs over 6 components of 20-24 heavy atoms',
+                  'ordered pairs over 6 components of 20-24 heavy atoms; '
+                  'per distinct scheme 18 monocycles written from every ring '
+                  'atom in both directions (79 writings): every writing x the '
+                  'first writing of 10 partner rings, both component orders '
+                  '(1480 pairs); all 90 interleavings of decompose / estimate '
+                  'events for A, B, A.B on one library object x all unordered pairs '
+                  '(self-pairs included) over 3 homologous alkanes x 9 '
+                  'libraries',
          'thorough': 'the same over M(3) (~330 molecules per scheme); the '
                      'interleavings over all ordered pairs of 4 molecules per '
-                     'library'}
+                     'library; 29 monocycles (3- to 7-rings), every writing x '
+                     'every writing (17424 pairs per scheme); decompose / '
+                     'estimate interleavings over all ordered pairs of 5 '
+                     'molecules per library (two alkanols added), and all '
+                     '1680 interleavings of decompose / estimate / evaluate '
+                     'as three separate events per species over the '
+                     'unordered pairs of CCC, CCCC'}
 RULE = ('every ordered pair / triple is written A.B(.C) and decomposed; '
         'non-trivial = both components decompose to non-empty dictionaries, or '
         'exactly one component is undecomposable (failure clause); an '
         'estimate schedule is one order of the events make(A), make(B), '
         'make(A.B), evaluate(A), evaluate(B), evaluate(A.B) with every make '
         'before its evaluate - make = GetDescriptors immediately followed by '
-        'Estimate, evaluate = all 12 getter presentations at 298.15 K')
+        'Estimate, evaluate = all 12 getter presentations at 298.15 K; a '
+        'ring writing = the SMILES of a monocycle that starts at one ring '
+        'atom and walks one way round (textual duplicates by symmetry '
+        'dropped); a split schedule is one order of decompose(A), '
+        'decompose(B), decompose(A.B), estimate(A), estimate(B), '
+        'estimate(A.B) with every decompose before its estimate - estimate = '
+        'Estimate on the mapping its own decompose returned, evaluated at '
+        'once (thorough also: evaluated as a third, later event)')
 ASSUMPTIONS = ['pairs whose component already exceeds 5000 embeddings for a '
                'pattern are excluded (substructure search truncates at 10000); '
                'none occur in the domain',
@@ -54,7 +88,20 @@ ASSUMPTIONS = ['pairs whose component already exceeds 5000 embeddings for a '
                'library object, a witness replays its own schedule on a fresh '
                'one',
                'standard errors (get_*_SE) are a quadratic form, not additive, '
-               'and are not part of the getter alphabet']
+               'and are not part of the getter alphabet',
+               'split schedules: an estimate made while the last molecule the '
+               'library object decomposed is not its own takes the elemental '
+               'entropies of that other molecule (recorded finding K1 of C15): '
+               'in a schedule that contains such an estimate the four '
+               'S_elements=True presentations are evaluated but not judged, '
+               'the other eight are; schedules without one are judged on all '
+               '12.  Which estimates are of that kind is read off the schedule '
+               'by the harness, not asked of the library',
+               'the split schedules of one library share one library object; '
+               'a violating schedule is re-run at once on a fresh object: if '
+               'it violates there too the witness is that schedule alone, '
+               'otherwise the witness is the whole sequence of schedules the '
+               'shared object has gone through']
 MANIFEST = dict(
     technique='exhaustive enumeration of ordered molecule pairs and triples, '
               'additive differential oracle',
@@ -66,7 +113,10 @@ MANIFEST = dict(
          'equal the sum of the components\' properties - for every getter '
          '(absolute and relative to the elements, with and without units), '
          'whether the three estimates are evaluated as they are made or in '
-         'any interleaving with the making of the others.',
+         'any interleaving with the making of the others, and whether each '
+         'is made right after its own decomposition or after the other '
+         'species were decomposed.  Ring components are written from every '
+         'ring atom in both directions.',
     note='Locality is checked on small components; very large components '
          'only through the curated list.',
     ref='5/C04')
@@ -373,6 +423,164 @@ def run_schedules(R, name, i, n, tier, only=None):
             run_schedule(R, name, lib, a, b, sched)
 
 
+# ---- wave 5 (c): ring components written from every ring atom ------------
+def run_rings(R, name, i, n, tier):
+    """Ordered pairs of ring writings (W5.ring_pairs); the oracle is check()
+    unchanged: descriptors add up key-wise, an undecomposable ring (pyridine)
+    makes the pair fail."""
+    S = scheme(name)
+    pairs = W5.ring_pairs(tier)
+    mine = pairs[i::n]
+    single = {}
+    for a, b in mine:
+        for w in (a, b):
+            if w not in single:
+                single[w] = desc(S, w)
+    R.extra['ring_pairs'] += len(mine)
+    for a, b in mine:
+        check(R, name, S, (a, b), single)
+
+
+# ---- wave 5 (d): decomposition and estimation as separate events ---------
+S_ELEM = [i for i, (lab, _f) in enumerate(GETTERS) if 'S_elements' in lab]
+assert len(S_ELEM) == 4
+
+
+def split_molecules(lib, tier):
+    """The first 3 (thorough: 5) molecules of W5.SPLIT the library estimates."""
+    out = []
+    for s in W5.SPLIT:
+        try:
+            e = lib.Estimate(lib.GetDescriptors(s), 'thermochem')
+            if all(isinstance(x, float) for x in evaluate(e, SCHED_T)):
+                out.append(s)
+        except Exception:   # noqa
+            pass
+    return out[:3 if tier == 'quick' else 5]
+
+
+def split_case(name, lib, a, b, sched):
+    """One schedule on `lib`.  Events: dX decompose X, eX estimate X from the
+    mapping dX returned, vX evaluate (when the schedule has no v events an
+    estimate is evaluated as soon as it is made).  Returns None (additive) or
+    (key, message)."""
+    text = dict(A=a, B=b, P=a + '.' + b)
+    separate = any(ev[0] == 'v' for ev in sched)
+    dec, made, val, stale = {}, {}, {}, {}
+    last = None     # the harness's own record of the last molecule decomposed
+    for ev in sched:
+        k = ev[1]
+        if ev[0] == 'd':
+            last = text[k]
+            try:
+                dec[k] = ('ok', lib.GetDescriptors(text[k]))
+            except Exception as ex:     # noqa
+                dec[k] = ('exc', type(ex).__name__)
+        elif ev[0] == 'e':
+            stale[k] = last != text[k]
+            if dec[k][0] != 'ok':
+                made[k] = dec[k][1]
+            else:
+                try:
+                    made[k] = lib.Estimate(dec[k][1], 'thermochem')
+                except Exception as ex:     # noqa
+                    made[k] = type(ex).__name__
+            if not separate:
+                val[k] = (made[k] if isinstance(made[k], str)
+                          else evaluate(made[k], SCHED_T))
+        else:
+            val[k] = (made[k] if isinstance(made[k], str)
+                      else evaluate(made[k], SCHED_T))
+    order = ' '.join(sched)
+    if isinstance(val['A'], str) or isinstance(val['B'], str):
+        return ('split-component-fails', '[%s] schedule %s: the estimate of '
+                '%r / %r, possible alone, gave %r / %r' % (
+                    name, order, a, b, val['A'], val['B']))
+    want = summed(val['A'], val['B'])
+    bad = agree(val['P'], want)
+    any_stale = any(stale.values())
+    if bad and any_stale:
+        # K1 of C15: the elemental reference of an estimate made after
+        # another molecule was decomposed is not judged here
+        bad = [i for i in bad if i not in S_ELEM]
+    if bad == []:
+        return None
+    lab = labels(SCHED_T)
+    shown = (bad or [0])[:4]
+    return ('split-estimate-not-additive:%s' % (
+        'estimate-after-other-decompositions' if any_stale
+        else 'estimate-right-after-own-decomposition'),
+        '[%s] A=%r, B=%r, P=A.B decomposed (d) and estimated from that '
+        'decomposition (e) %sin the order %s on one library object: P gives '
+        '%r, A + B give %r' % (
+            name, a, b, 'and evaluated (v) ' if separate else '', order,
+            val['P'] if bad is None else [(lab[i], val['P'][i]) for i in shown],
+            [(lab[i], want[i]) for i in shown]))
+
+
+def split_plan(tier, mols):
+    """[(a, b, schedule)] in enumeration order."""
+    out = []
+    if tier == 'quick':
+        pairs = list(itertools.combinations_with_replacement(mols, 2))
+    else:
+        pairs = list(itertools.product(mols, repeat=2))
+    for a, b in pairs:
+        for sched in W5.SPLIT_SCHEDULES:
+            out.append((a, b, sched))
+    if tier != 'quick':
+        s3 = W5.split_schedules3()
+        for a, b in itertools.combinations_with_replacement(mols[1:3], 2):
+            for sched in s3:
+                out.append((a, b, sched))
+    return out
+
+
+def run_split(R, name, i, n, tier, history=None):
+    """history given (replay): exactly those schedules, in order, on one fresh
+    library object."""
+    lib = libs.load(name)
+    if history is not None:
+        plan = [(h[0], h[1], tuple(h[2])) for h in history]
+    else:
+        mols = split_molecules(lib, tier)
+        pairs = {}
+        for a, b, sched in split_plan(tier, mols):
+            pairs.setdefault((a, b), []).append(sched)
+        keys = list(pairs)[i::n]        # a pair's schedules stay together
+        R.extra['split_pairs'] += len(keys)
+        plan = [(a, b, sched) for (a, b) in keys for sched in pairs[(a, b)]]
+    done = []
+    for a, b, sched in plan:
+        done.append([a, b, list(sched)])
+        R.evals += 1
+        R.nontrivial += 1
+        v = split_case(name, lib, a, b, sched)
+        if v is None:
+            R.outcomes['split:additive'] += 1
+            continue
+        R.outcomes['split:' + v[0].split(':')[0]] += 1
+        if history is not None:
+            R.violation(v[0], v[1], dict(kind='split', scheme=name,
+                                         history=done[:]))
+            continue
+        known = [x['key'] for x in R.violations]
+        if v[0] in known or v[0] + ':after-history' in known:
+            R.violation(v[0] if v[0] in known else v[0] + ':after-history',
+                        v[1], None)
+            continue
+        # first of its key in this shard: does the schedule violate by itself?
+        alone = split_case(name, libs.load(name), a, b, sched)
+        if alone is not None:
+            R.violation(v[0], v[1], dict(kind='split', scheme=name,
+                                         history=[done[-1]]))
+        else:
+            R.violation(v[0] + ':after-history', v[1] + ' - not on a fresh '
+                        'library object, only after the %d schedules this '
+                        'object went through before' % (len(done) - 1),
+                        dict(kind='split', scheme=name, history=done[:]))
+
+
 def shards(tier, seed):
     out = []
     for name in SD.distinct_schemes():
@@ -381,11 +589,17 @@ def shards(tier, seed):
             out.append(('pairs', name, i, nch))
         out.append(('triples', name))
         out.append(('big', name))
+        nr = 2 if tier == 'quick' else 8
+        for i in range(nr):
+            out.append(('rings', name, i, nr))
     for name in libs.LIBS:
         out.append(('estimates', name))
         nsch = 2 if tier == 'quick' else 4
         for i in range(nsch):
             out.append(('schedules', name, i, nsch))
+        nsp = 1 if tier == 'quick' else 8
+        for i in range(nsp):
+            out.append(('split', name, i, nsp))
     return out
 
 
@@ -399,6 +613,10 @@ def run_shard(shard, tier):
         run_big(R, shard[1])
     elif shard[0] == 'schedules':
         run_schedules(R, shard[1], shard[2], shard[3], tier)
+    elif shard[0] == 'rings':
+        run_rings(R, shard[1], shard[2], shard[3], tier)
+    elif shard[0] == 'split':
+        run_split(R, shard[1], shard[2], shard[3], tier)
     else:
         run_estimates(R, shard[1])
     return R
@@ -412,6 +630,9 @@ def replay(w):
         # the whole history of the case: a fresh library object, one schedule
         run_schedules(R, w['scheme'], 0, 1, 'quick',
                       only=(w['comps'], w['schedule']))
+    elif w['kind'] == 'split':
+        # the whole history of the case on a fresh library object
+        run_split(R, w['scheme'], 0, 1, 'quick', history=w['history'])
     elif len(w['comps']) == 2:
         S = scheme(w['scheme'])
         single = {s: desc(S, s) for s in w['comps']}
